@@ -60,7 +60,7 @@ class C07Engine(Engine):
             return [('fleet', 6, 2)]
         if tier == 'thorough':
             return [('fleet', 15000, 10)]
-        return [('fleet', 300, 3)]
+        return [('fleet', 800, 4)]
 
     def run(self, tape, kind):
         res = new_result()
